@@ -105,10 +105,29 @@ def r1(ctx, rep):
             disp_words = set()
     wi = syn.fn("codegen::ast::write_ident_part", crate="prqlc")
     cond_ok = False
+    import alpha as _al0
+    import boolfn as _bf
+    Aw0 = _al0.Inliner(wi)
+    wp = [p_["name"] for p_ in wi.get("params", []) if isinstance(p_, dict) and "name" in p_] or ["s"]
     for n in walk(wi["body"]):
-        if n.get("k") == "if":
-            wp = [p_["name"] for p_ in wi.get("params", []) if isinstance(p_, dict) and "name" in p_] or ["s"]
-            cond_ok = show(n["c"]) == f"(valid_prql_ident().is_match({wp[0]}) && !keywords().contains({wp[0]}))" and "`" in show_stmts(n["e"])
+        if n.get("k") == "if" and n.get("e") is not None:
+            rows_ = []
+            try:
+                for m_ in (True, False):
+                    for kw in (True, False):
+                        def atom(t, m_=m_, kw=kw):
+                            t = t.replace(" ", "")
+                            if t == f"valid_prql_ident().is_match({wp[0]})":
+                                return m_
+                            if t == f"keywords().contains({wp[0]})":
+                                return kw
+                            return None
+                        taken = n["t"] if _bf.ev(n["c"], atom, Aw0) else n["e"]
+                        quoted = "`" in show_stmts(taken)
+                        rows_.append(quoted == (not (m_ and not kw)))
+                cond_ok = all(rows_)
+            except _bf.Unknown:
+                cond_ok = False
     rep.check(cond_ok, "write_ident_part:shape", "write_ident_part must print bare only when the regex matches AND the word is not a keyword, else in backticks", file=wi["file"], line=wi["l"], fn=wi["path"])
     for w in sorted(words):
         rep.check(w in fmt_words, f"codegen-keyword:{w}",
@@ -331,23 +350,43 @@ def r3(ctx, rep):
     rep.check(isinstance(fn_, int) and fn_ < call, "kinds:func<call", "a lambda as argument of a call must be parenthesised", file=f["file"], line=f["l"], fn=f["path"])
     # shape of needs_parenthesis
     np = syn.fn("codegen::ast::needs_parenthesis", crate="prqlc")
+    # the whole decision as a truth table over (unbound && can bind left, context vs own strength, side, own associativity):
+    # formula, local names, `match` vs boolean expression and early returns are free
     import alpha as _al
+    import boolfn
     An = _al.Inliner(np)
-    ifs = [n for n in np["body"]["s"] if n.get("k") == "if"]
-    conds = [An.show(i["c"]) for i in ifs]       # locals inlined: the node's strength is `binding_strength(&this.kind)` under any name
-    rets = [show_stmts(i["t"]) for i in ifs]
-    shape_ok = (len(ifs) >= 3 and conds[0] == "(opt.unbound_expr && can_bind_left(&this.kind))" and rets[0] == "return true"
-                and conds[1] == "(opt.context_strength > binding_strength(&this.kind))" and rets[1] == "return true"
-                and conds[2] == "(opt.context_strength < binding_strength(&this.kind))" and rets[2] == "return false")
-    rep.check(shape_ok, "needs_parenthesis:shape", f"needs_parenthesis must compare context strength with the node's strength (>: parens, <: none); found {list(zip(conds, rets))}", file=np["file"], line=np["l"], fn=np["path"])
-    am = [m for m in matches_of(np["body"]) if show(m["e"]) == "opt.binary_position"]
-    ok = False
-    if am:
-        rowsm = {last_seg(h) if isinstance(h, str) else h: show(tail_expr(b) if b.get("k") == "block" else b) for h, g, b, l, _ in tables.match_rows(am[0])}
-        ok = (rowsm.get("Left") == "(associativity(&this.kind) == super::Position::Left)" and rowsm.get("Right") == "(associativity(&this.kind) == super::Position::Right)"
-              and rowsm.get("Unspecified") == "false")
-    tail = show(tail_expr(np["body"]))
-    rep.check(ok and tail == "!assoc_matches", "needs_parenthesis:assoc", "at equal strength parentheses may be dropped only when the child's associativity matches its side", file=np["file"], line=np["l"], fn=np["path"])
+    wrong = []
+    try:
+        for unbound in (True, False):
+            for rel in ("gt", "lt", "eq"):
+                for side in ("Left", "Right", "Unspecified"):
+                    for assoc in ("Left", "Right", "Unspecified"):
+                        def atom(t, unbound=unbound, rel=rel, side=side, assoc=assoc):
+                            t = t.replace(" ", "")
+                            if t == "opt.unbound_expr":
+                                return unbound
+                            if t == "can_bind_left(&this.kind)":
+                                return True
+                            if t in ("(opt.context_strength>binding_strength(&this.kind))", "opt.context_strength>binding_strength(&this.kind)"):
+                                return rel == "gt"
+                            if t in ("(opt.context_strength<binding_strength(&this.kind))", "opt.context_strength<binding_strength(&this.kind)"):
+                                return rel == "lt"
+                            if t == "opt.binary_position":
+                                return "Position::" + side
+                            if t == "associativity(&this.kind)":
+                                return "Position::" + assoc
+                            return None
+                        want = True if unbound else (True if rel == "gt" else (False if rel == "lt" else not ((side == "Left" and assoc == "Left") or (side == "Right" and assoc == "Right"))))
+                        got = boolfn.ev_body(np["body"], atom, An)
+                        if got != want:
+                            wrong.append((unbound, rel, side, assoc, got))
+        shape_ok = not wrong
+    except boolfn.Unknown as e:
+        shape_ok = False
+        wrong = [str(e)]
+    rep.check(shape_ok, "needs_parenthesis:shape", f"needs_parenthesis must be: unbound-and-can-bind-left -> parentheses; context stronger -> parentheses; weaker -> none; equal -> parentheses unless "
+              f"the child's associativity equals its side; differing rows (unbound, strength, side, assoc, got): {wrong[:4]}", file=np["file"], line=np["l"], fn=np["path"])
+    rep.check(shape_ok, "needs_parenthesis:assoc", "at equal strength parentheses may be dropped only when the child's associativity matches its side", file=np["file"], line=np["l"], fn=np["path"])
     # write_within raises the context to the parent's strength; Binary sets the side
     ww = syn.fn("codegen::ast::write_within", crate="prqlc")
     Aw = __import__("alpha").Inliner(ww)
